@@ -126,6 +126,11 @@ func RuleDRecursion(c *core.Ctx) {
 							if !dependsChain || !dependsPath {
 								continue
 							}
+							// the test must compare an element (or key) read from the chain, and
+							// must not be computed from the result of the recursion itself
+							if !readsElementOf(p, co, chainOrigin, prm) || dependsOnCallTo(co, g) {
+								continue
+							}
 							if fn == f {
 								r0 := b.Succs[0] == ins.Block() || core.BlockReaches(b.Succs[0], ins.Block(), nil)
 								r1 := b.Succs[1] == ins.Block() || core.BlockReaches(b.Succs[1], ins.Block(), nil)
@@ -158,6 +163,65 @@ func RuleDRecursion(c *core.Ctx) {
 		}
 	}
 	c.Floor(rule, 1)
+}
+
+// readsElementOf: the slice co contains an element or key read (index, lookup,
+// range) of a container in chain.
+func readsElementOf(p *core.Prog, co, chain map[ssa.Value]bool, prm *ssa.Parameter) bool {
+	inChain := func(x ssa.Value) bool {
+		if x == prm || chain[x] {
+			switch x.(type) {
+			case *ssa.Const, *ssa.Builtin, *ssa.Function, *ssa.Global:
+				return false
+			}
+			return true
+		}
+		return intersectsNonConst(originSet(p, x, 0), map[ssa.Value]bool{prm: true}) || chainContainer(originSet(p, x, 0), chain)
+	}
+	for v := range co {
+		switch v := v.(type) {
+		case *ssa.IndexAddr:
+			if inChain(v.X) {
+				return true
+			}
+		case *ssa.Index:
+			if inChain(v.X) {
+				return true
+			}
+		case *ssa.Lookup:
+			if inChain(v.X) {
+				return true
+			}
+		case *ssa.Range:
+			if inChain(v.X) {
+				return true
+			}
+		}
+	}
+	return false
+}
+
+// chainContainer: a slice- or map-typed value of the slice a is in chain.
+func chainContainer(a, chain map[ssa.Value]bool) bool {
+	for v := range a {
+		if !chain[v] {
+			continue
+		}
+		switch v.Type().Underlying().(type) {
+		case *types.Slice, *types.Map:
+			return true
+		}
+	}
+	return false
+}
+
+func dependsOnCallTo(co map[ssa.Value]bool, g *ssa.Function) bool {
+	for v := range co {
+		if c, ok := v.(*ssa.Call); ok && c.Call.StaticCallee() == g {
+			return true
+		}
+	}
+	return false
 }
 
 func intersects(a, b map[ssa.Value]bool) bool {
